@@ -16,7 +16,7 @@
 (* copies (the harness mutates every returned/passed attribute object and  *)
 (* the projected state must still equal the specified one).                *)
 (***************************************************************************)
-EXTENDS Naturals, Sequences, FiniteSets, TLC
+EXTENDS Integers, Sequences, FiniteSets, TLC
 
 Scopes == 1..4               \* 1..3 form the initial chain 1 -> 2 -> 3 (3 is the root), 4 is a spare root
 Names  == {"a", "b", "ab"}   \* folded names
@@ -76,8 +76,10 @@ Apply(st, e) ==
     [] e.op = "del"        -> IF Has(st, e.s, n) THEN R(Put(st, e.s, n, Absent), "none") ELSE R(st, "KeyError")
     [] e.op = "pop"        -> IF Has(st, e.s, n) THEN R(Put(st, e.s, n, Absent), st.tab[e.s][n])
                               ELSE R(st, IF e.f THEN "default" ELSE "KeyError")
-    [] e.op = "clone"      -> \* table.clone(): slot 4 becomes a copy of scope e.s with the same parent
-                              R([st EXCEPT !.tab[4] = st.tab[e.s], !.parent[4] = IF e.s = 4 THEN @ ELSE st.parent[e.s]], "none")
+    [] e.op = "clone"      -> \* table.clone([parent=...]): slot 4 becomes a copy of scope e.s; its parent is the
+                              \* one given (e.p = 0: explicitly none) or, when not given (e.p = -1), the parent of e.s
+                              R([st EXCEPT !.tab[4] = st.tab[e.s],
+                                           !.parent[4] = IF e.p = -1 THEN st.parent[e.s] ELSE e.p], "none")
     \* re-parenting: through the scope's re-parenting method, or by assigning its `parent` attribute
     [] e.op \in {"reparent", "reparent_attr"} -> R([st EXCEPT !.parent[e.s] = e.p], "none")
     \* Scope-level API
@@ -94,7 +96,7 @@ EvFlag == [op : {"lookup", "pop", "get_type"}, s : Scopes, k : Spellings, f : BO
 EvOwner == [op : {"symbol_scope"}, s : Scopes, k : Spellings]
 EvUpd  == [op : {"update"}, s : Scopes, k : Spellings, v : Vals, k2 : Spellings, v2 : Vals]
 \* the spare slot 4 is overwritten by the clone: it must not be anybody's parent at that moment
-EvClone(st) == {e \in [op : {"clone"}, s : 1..3, k : {"a"}] : \A t \in Scopes : st.parent[t] # 4}
+EvClone(st) == {e \in [op : {"clone"}, s : 1..3, k : {"a"}, p : (-1)..3] : \A t \in Scopes : st.parent[t] # 4}
 EvRepar(st) == {e \in [op : {"reparent", "reparent_attr"}, s : Scopes, p : 0..4, k : {"a"}] :
                    e.p # e.s /\ (e.p # 0 => e.s \notin Chain(st, e.p))}
 Events(st) == EvBase \cup EvRead \cup EvFlag \cup EvOwner \cup EvUpd \cup EvClone(st) \cup EvRepar(st)
